@@ -8,6 +8,8 @@ PYTHONPATH=$wt/src /venv/bin/python $out/demo$k.py > $out/confirm${k}_demo_clean
 git apply $out/mut$k.diff || { echo "$pid-$k: patch failed"; exit 2; }
 PYTHONPATH=$wt/src /venv/bin/python $out/demo$k.py > $out/confirm${k}_demo_mut.log 2>&1; d1=$?
 /venv/bin/python -m pytest -q -p no:cacheprovider --timeout=900 -x > $out/confirm${k}_suite.log 2>&1; t=$?
+# two tests of the suite are unseeded and fail now and then on the clean tree too (test_isotension_simulation_with_mask, test_isobaric_simulation): one retry
+if [ $t -ne 0 ]; then cp $out/confirm${k}_suite.log $out/confirm${k}_suite_try1.log; /venv/bin/python -m pytest -q -p no:cacheprovider --timeout=900 -x > $out/confirm${k}_suite.log 2>&1; t=$?; fi
 tail -1 $out/confirm${k}_suite.log > $out/confirm${k}_suite.tail
 git checkout -q -- . ; git clean -fdq
 echo "$pid-$k demo_clean_exit=$d0 demo_mutated_exit=$d1 suite_exit=$t $(cat $out/confirm${k}_suite.tail)"
